@@ -199,6 +199,54 @@ func genSpec(ch *simrt.Chooser, consistent bool) (*tls.ClientHelloSpec, string) 
 		ch.Bytes(body, "generic-body")
 		add("generic", &tls.GenericExtension{Id: uint16(0x4001 + 2*ch.Pick(200, "generic-id")), Data: body})
 	}
+	// boundary stratum (free-form specs only): one list-valued extension is blown up to the limit of
+	// its length prefix or beyond it. At the limit the hello must still be well formed; beyond it
+	// the spec cannot be encoded and building must fail - never a hello with a wrapped length.
+	if !consistent && ch.Bool(12, "oversize") {
+		which := ch.Pick(5, "oversize-ext")
+		for _, e := range exts {
+			switch x := e.(type) {
+			case *tls.SupportedVersionsExtension:
+				if which == 0 {
+					n := []int{127, 128, 129, 200, 255, 256}[ch.Pick(6, "n-versions")]
+					for i := len(x.Versions); i < n; i++ {
+						x.Versions = append(x.Versions, tls.GREASE_PLACEHOLDER) // (unknown non-GREASE versions are refused earlier)
+					}
+					desc = append(desc, fmt.Sprintf("oversize-versions=%d", n))
+				}
+			case *tls.PSKKeyExchangeModesExtension:
+				if which == 1 {
+					n := []int{255, 256, 300}[ch.Pick(3, "n-modes")]
+					for i := len(x.Modes); i < n; i++ {
+						x.Modes = append(x.Modes, uint8(2+i%200))
+					}
+					desc = append(desc, fmt.Sprintf("oversize-pskmodes=%d", n))
+				}
+			case *tls.SupportedPointsExtension:
+				if which == 2 {
+					n := []int{255, 256, 300}[ch.Pick(3, "n-points")]
+					for i := len(x.SupportedPoints); i < n; i++ {
+						x.SupportedPoints = append(x.SupportedPoints, uint8(1+i%2))
+					}
+					desc = append(desc, fmt.Sprintf("oversize-points=%d", n))
+				}
+			case *tls.UtlsCompressCertExtension:
+				if which == 3 {
+					n := []int{127, 128, 129, 200}[ch.Pick(4, "n-compalgs")]
+					for i := len(x.Algorithms); i < n; i++ {
+						x.Algorithms = append(x.Algorithms, tls.CertCompressionAlgo(0x100+i))
+					}
+					desc = append(desc, fmt.Sprintf("oversize-compalgs=%d", n))
+				}
+			case *tls.ALPNExtension:
+				if which == 4 {
+					n := []int{255, 256, 300}[ch.Pick(3, "alpn-proto-len")]
+					x.AlpnProtocols = []string{strings.Repeat("p", n)}
+					desc = append(desc, fmt.Sprintf("oversize-alpn-proto=%d", n))
+				}
+			}
+		}
+	}
 	// order: a drawn rotation + optional swaps, then GREASE first/last and padding at the end
 	if len(exts) > 1 && ch.Bool(60, "spec-rotate") {
 		k := ch.Pick(len(exts), "rot")
